@@ -46,7 +46,12 @@ theorem objstm_header (ms : List Member) (hw : WellSized ms) :
   rw [pairs_length, pairs_snd] at this
   simpa [pack] using this
 
-/-- **`objstm_slice`.** For every member `i` of a packed stream — first, middle or last, with or without
+/-- (Scope: the *canonical* layout of the specification's writer `pack` — header numbers separated by single
+    spaces, members back to back. An object stream with another legal header layout (several spaces, line breaks,
+    comments) is covered by `member_total` (no panic) and by the correspondence streams `c11.member(.outside)`, not
+    by this theorem; likewise every theorem below that assumes `decode … = (pack ms).data`.)
+
+    **`objstm_slice`.** For every member `i` of a packed stream — first, middle or last, with or without
     white-space behind it — the reader's slice is exactly that member's text followed by its separator. -/
 theorem objstm_slice (ms : List Member) (i : Nat) (hi : i < ms.length) (hw : WellSized ms) :
     member (pack ms).n (pack ms).first (pack ms).data i = .ok (ms[i].text ++ ms[i].sep) := by
@@ -214,7 +219,13 @@ theorem stored_equal (P : Parsers V T) (buf : Bytes) (start : Nat) (t : Xref.Tab
   cases P.parseMember flags ms[idx].text <;> rfl
 
 /-- **`length_direct_eq_indirect`.** A stream whose `/Length` is a reference to an integer `n` — wherever
-    that integer is stored — is read exactly like the stream with `/Length n` written directly. -/
+    that integer is stored — is read exactly like the stream with `/Length n` written directly.
+
+    Scope: this is the *parametric* layer (`Offsets.streamWithLen`, the object parser reports a length that is still
+    to be resolved). The concrete parser of `Model/Parser.lean` never reports `.indirect`: it resolves the reference
+    itself through `env.resolveLen`, i.e. it takes the resolver's answer as a parameter. The concrete statement is
+    `length_direct_eq_indirect_concrete` + `model_resolver_answers_compressed_length` (section `Concrete`); the
+    comparison of the twin streams on the real library is the oracle `c11.twins`. -/
 theorem length_direct_eq_indirect (P : Parsers V T) (resolveLen : Nat → Out (Obj V)) (sfx : Bytes) (q : Nat)
     (info : V) (rel lid : Nat) (v : V) (n : Nat)
     (hres : resolveLen lid = .ok (.plain v)) (hlen : P.asLen v = .ok n) :
@@ -252,7 +263,10 @@ def compressedOld (flags : Flags) (r : Out (Obj V)) : Out (Obj V) := if gateOld 
 example : compressedOld (V := Nat) .integer (.ok (.plain 5)) = .err := by decide
 example : compressedOld (V := Nat) .any (.ok (.plain 5)) = .ok (.plain 5) := by decide
 
-/-- under the old gate the conclusion of `length_compressed` fails for every member -/
+/-- `compressedOld` is a function *local to this file* that restates the removed gate
+    (`if !flags.contains(STREAM) { return Err }`); the theorem says that this local function refuses every request
+    carrying `INTEGER`. It is an illustration of D42, not a statement about `Model/Offsets.lean` (which describes the
+    repaired code); the regression itself is held by the oracle `c11.twins` (`length-twin:indirect-compressed`). -/
 theorem gateOld_refuses_lengths (r : Out (Obj Nat)) : compressedOld .integer r = .err := by
   simp [compressedOld, gateOld]
 
@@ -582,6 +596,97 @@ theorem member_with_context_decrypts_twice :
     isStrC [97] (parse (withDec cEnvC (fun _ _ s => s.map (fun b => b ^^^ 255))) #[40, 97, 41] 1023) = true := by
   decide +kernel
 
+/-! ### the stream half at the concrete layer
+
+Under the concrete parser the `.indirect` branch of `Offsets.streamWithLen` is not used: `parse_stream_object` of
+`Model/Parser.lean` resolves `/Length i g R` itself, through `env.resolveLen` (`concreteP.objAt` then reports the
+stream with a direct length). The two theorems below are the concrete counterpart of `length_direct_eq_indirect`:
+the data read does not depend on how `/Length` is written, provided the resolver answers the data's length — and the
+resolver instantiated with the model's own `resolveRef … .integer` does answer it for an integer stored in an object
+stream (`model_resolver_answers_compressed_length`). The end-to-end comparison on the real library (all three forms,
+raw and decoded data, unencrypted and encrypted) is the oracle `c11.twins` / `c11.twins.encrypted`. -/
+
+open PdfSyntax (SpellsStream WFE keysOf needE vdepthE) in
+/-- `id gen obj << … >> stream … endstream endobj` laid out at `pos` of `buf`, any gaps the syntax allows -/
+structure StreamObjectAt (env : Env R) (info : Dict R) (data : List UInt8) (buf : Buf) (pos id gen : Nat) : Prop where
+  layout : ∃ txt g0 a g1 b g2 g3 g4 rest, SpellsStream env.parseReal info data txt ∧ Gap g0 ∧ NatTok a id ∧ NatTok b gen ∧
+    Gap g1 ∧ g1 ≠ [] ∧ Gap g2 ∧ g2 ≠ [] ∧ Gap g3 ∧ Gap g4 ∧ g4 ≠ [] ∧
+    Suffix buf pos (g0 ++ a ++ g1 ++ b ++ g2 ++ kwObj ++ g3 ++ txt ++ g4 ++ kwEndobj ++ rest) ∧ Bnd rest
+  wf : WFE info
+  nodup : (keysOf info).Nodup
+  size : buf.size ≤ 2147483647
+  idOk : id ≤ 18446744073709551615
+  genOk : gen ≤ 18446744073709551615
+  depth : 1 + vdepthE info ≤ maxDepth
+
+open PdfSyntax (needE) in
+/-- a stream object whose `/Length` — written either way — is the length of its data is read with exactly that data -/
+theorem stream_object_reads_data_concrete (env : Env R) (hd : env.decrypt = none) (info : Dict R) (data : List UInt8)
+    (buf : Buf) (pos id gen fuel : Nat) (h : StreamObjectAt env info data buf pos id gen)
+    (hlen : LengthIs env info data.length) (hfuel : 2 + needE info ≤ fuel) :
+    ∃ dataPos q, parseIndirectObject env buf fuel pos 1023
+        = .ok (((id, gen), streamAt env info (id, gen) dataPos data.length), q) ∧
+      slice buf dataPos (dataPos + data.length) = data := by
+  obtain ⟨txt, g0, a, g1, b, g2, g3, g4, rest, hsp, hg0, ha, hb, hg1, hg1ne, hg2, hg2ne, hg3, hg4, hg4ne, hs, hbnd⟩ := h.layout
+  obtain ⟨dp, h1, h2⟩ := parseIndirectObject_stream env hd info data txt hsp h.wf h.nodup hlen h.size g0 a g1 b g2 g3 g4 rest
+    id gen pos fuel hg0 ha hb hg1 hg1ne hg2 hg2ne h.idOk h.genOk hg3 hg4 hg4ne hs hbnd hfuel h.depth 1023 (by decide)
+  exact ⟨dp, _, h1, h2⟩
+
+open PdfSyntax (needE) in
+/-- **`length_direct_eq_indirect`, concrete.** The same stream written once with `/Length n` and once with
+    `/Length i g R`, where the resolver answers `n` for `i g`, is read through `parse_indirect_object` of
+    `Model/Parser.lean` with the SAME data (and a `file_range` of the same length). The resolver's answer is the
+    hypothesis `hres`; `model_resolver_answers_compressed_length` discharges it for the model's own resolve. -/
+theorem length_direct_eq_indirect_concrete (env : Env R) (hd : env.decrypt = none) (data : List UInt8)
+    (info₁ info₂ : Dict R) (buf₁ buf₂ : Buf) (pos₁ id₁ gen₁ pos₂ id₂ gen₂ fuel li lg : Nat)
+    (h₁ : StreamObjectAt env info₁ data buf₁ pos₁ id₁ gen₁) (h₂ : StreamObjectAt env info₂ data buf₂ pos₂ id₂ gen₂)
+    (hl₁ : dictGet info₁ kwLength = some (.int (data.length : Int)))
+    (hl₂ : dictGet info₂ kwLength = some (.ref li lg)) (hres : env.resolveLen li lg = .ok data.length)
+    (hf₁ : 2 + needE info₁ ≤ fuel) (hf₂ : 2 + needE info₂ ≤ fuel) :
+    ∃ p₁ q₁ p₂ q₂,
+      parseIndirectObject env buf₁ fuel pos₁ 1023 = .ok (((id₁, gen₁), streamAt env info₁ (id₁, gen₁) p₁ data.length), q₁) ∧
+      parseIndirectObject env buf₂ fuel pos₂ 1023 = .ok (((id₂, gen₂), streamAt env info₂ (id₂, gen₂) p₂ data.length), q₂) ∧
+      slice buf₁ p₁ (p₁ + data.length) = data ∧ slice buf₂ p₂ (p₂ + data.length) = data := by
+  obtain ⟨p₁, q₁, e₁, d₁⟩ := stream_object_reads_data_concrete env hd info₁ data buf₁ pos₁ id₁ gen₁ fuel h₁ (Or.inl hl₁) hf₁
+  obtain ⟨p₂, q₂, e₂, d₂⟩ := stream_object_reads_data_concrete env hd info₂ data buf₂ pos₂ id₂ gen₂ fuel h₂
+    (Or.inr ⟨li, lg, hl₂, hres⟩) hf₂
+  exact ⟨p₁, q₁, p₂, q₂, e₁, e₂, d₁, d₂⟩
+
+/-- `r.resolve_flags(reference, INTEGER, 1)?.as_usize()` instantiated with the model's own resolve: the length
+    resolver that `parse_stream_object` would be handed by `Storage` (the objects it resolves are integers, so the
+    inner environment `env₀` needs no length resolver of its own) -/
+def modelLenResolver (env₀ : Env R) (pfuel : Nat) (dec : Dict R → OffLex.Bytes → Out OffLex.Bytes)
+    (X : OffLex.Bytes → Out (List Xref.Sub × Dict R)) (S : OffLex.Bytes → List (Out (Obj (Prim R))))
+    (buf : OffLex.Bytes) (start : Nat) (t : Xref.Table) (fuel : Nat) (chain : List Nat) : Nat → Nat → Out Nat :=
+  fun i _ =>
+    (resolveRef (concreteP env₀ pfuel dec X S) buf start t fuel chain .integer i).bind
+      (fun o => match o with
+        | .plain v => (concreteP env₀ pfuel dec X S).asLen v
+        | .stream _ _ _ => .err)
+
+/-- **`env.resolveLen` tied to `resolveRef … .integer`.** With the environment's length resolver instantiated by the
+    model's own resolve, a `/Length` reference to an integer `n` that is a member of an object stream is answered
+    with `n` (this is `length_compressed_concrete` read as a fact about the resolver): the hypothesis `hres` of
+    `length_direct_eq_indirect_concrete` for the compressed storage form. -/
+theorem model_resolver_answers_compressed_length (env₀ : Env R) (hd : env₀.decrypt = none) (pfuel : Nat)
+    (dec : Dict R → OffLex.Bytes → Out OffLex.Bytes) (X : OffLex.Bytes → Out (List Xref.Sub × Dict R))
+    (S : OffLex.Bytes → List (Out (Obj (Prim R))))
+    (buf : OffLex.Bytes) (start : Nat) (t : Xref.Table) (fuel : Nat) (chain : List Nat)
+    (lid lg sid idx : Nat) (info : Prim R) (a b : Nat) (raw : OffLex.Bytes) (ms : List Member) (n : Nat)
+    (hlook : Xref.lookup t lid = .compressed sid idx)
+    (hchain : chain.contains sid = false)
+    (hstm : resolveRef (concreteP env₀ pfuel dec X S) buf start t fuel (sid :: chain) .any sid = .ok (.stream info a b))
+    (hhead : (concreteP env₀ pfuel dec X S).stmHead info = .ok ((pack ms).n, (pack ms).first))
+    (hraw : readRange buf a b = .ok raw)
+    (hdec : (concreteP env₀ pfuel dec X S).decode info raw = .ok (pack ms).data)
+    (hi : idx < ms.length) (hw : WellSized ms)
+    (hsp : Spells env₀.parseReal (.int (n : Int)) ms[idx].text) (hsep : AllWs ms[idx].sep)
+    (hsz : (ms[idx].text ++ ms[idx].sep).length ≤ 2147483647) :
+    ({ env₀ with resolveLen := modelLenResolver env₀ pfuel dec X S buf start t (fuel + 1) chain } : Env R).resolveLen lid lg
+      = .ok n :=
+  length_compressed_concrete env₀ hd pfuel dec X S buf start t fuel chain lid sid idx info a b raw ms n
+    hlook hchain hstm hhead hraw hdec hi hw hsp hsep hsz
+
 end Concrete
 
 /-! ## Non-vacuity: a concrete stream with an integer first, a name in the middle without separator, a
@@ -603,5 +708,87 @@ example : member 4 19 (pack sample).data 0 = .ok [49, 50, 32] := by decide
 example : member 4 19 (pack sample).data 1 = .ok [47, 65, 98] := by decide
 example : member 4 19 (pack sample).data 3 = .ok [110, 117, 108, 108] := by decide
 example : member 4 19 (pack sample).data 4 = .err := by decide
+
+/-! ## Witness: the hypotheses of `compressed_reads_member_concrete` and `stored_equal_concrete` are satisfiable
+
+A complete little file: object 8 is an object stream holding `12` (object 2) and `/A` (object 3); object 9 is the
+integer `12` stored as an ordinary indirect object. Every hypothesis of the two theorems is discharged below, so
+their conclusions hold of an actual document (the hypotheses about the resolved object stream are read off the
+model's own evaluation of `resolveRef` on these bytes). -/
+
+section Witness
+open PdfLex PdfShift PdfSyntax
+
+def wMs : List Member := [⟨2, [49, 50], [32]⟩, ⟨3, [47, 65], []⟩]
+
+/-- `%PDF-1.4⏎8 0 obj⏎<</Type/ObjStm/N 2/First 8/Length 13>>⏎stream⏎2 0 3 3 12 /A⏎endstream⏎endobj⏎9 0 obj⏎12⏎endobj⏎` -/
+def wBuf : OffLex.Bytes :=
+  [37, 80, 68, 70, 45, 49, 46, 52, 10, 56, 32, 48, 32, 111, 98, 106, 10, 60, 60, 47, 84, 121, 112, 101, 47, 79, 98, 106,
+   83, 116, 109, 47, 78, 32, 50, 47, 70, 105, 114, 115, 116, 32, 56, 47, 76, 101, 110, 103, 116, 104, 32, 49, 51, 62, 62,
+   10, 115, 116, 114, 101, 97, 109, 10, 50, 32, 48, 32, 51, 32, 51, 32, 49, 50, 32, 47, 65, 10, 101, 110, 100, 115, 116,
+   114, 101, 97, 109, 10, 101, 110, 100, 111, 98, 106, 10, 57, 32, 48, 32, 111, 98, 106, 10, 49, 50, 10, 101, 110, 100,
+   111, 98, 106, 10]
+
+def wTab : Xref.Table :=
+  [.free 0 65535, .invalid, .stream 8 0, .stream 8 1, .invalid, .invalid, .invalid, .invalid, .raw 9 0, .raw 94 0]
+
+/-- the concrete parsers with the identity filter (the stream of the witness is stored unfiltered) -/
+abbrev wP : Parsers (Prim Unit) (Dict Unit) := concreteP cEnvC 100 (fun _ raw => .ok raw) (fun _ => .err) (fun _ => [])
+
+/-- `Prim` has no decidable equality: the facts about the resolved object stream are checked by a Boolean function -/
+def wStmOk : Out (Obj (Prim Unit)) → Bool
+  | .ok (.stream info a b) =>
+      decide (wP.stmHead info = .ok ((pack wMs).n, (pack wMs).first)) &&
+      decide (readRange wBuf a b = .ok (pack wMs).data) &&
+      decide (wP.decode info (pack wMs).data = .ok (pack wMs).data)
+  | _ => false
+
+theorem wStm : ∃ info a b, resolveRef wP wBuf 0 wTab 1 [8] .any 8 = .ok (.stream info a b) ∧
+    wP.stmHead info = .ok ((pack wMs).n, (pack wMs).first) ∧ readRange wBuf a b = .ok (pack wMs).data ∧
+    wP.decode info (pack wMs).data = .ok (pack wMs).data := by
+  have h : wStmOk (resolveRef wP wBuf 0 wTab 1 [8] .any 8) = true := by decide +kernel
+  generalize resolveRef wP wBuf 0 wTab 1 [8] .any 8 = r at h
+  match r, h with
+  | .ok (.stream info a b), h =>
+    simp only [wStmOk, Bool.and_eq_true, decide_eq_true_eq] at h
+    exact ⟨info, a, b, rfl, h.1.1, h.1.2, h.2⟩
+
+theorem wSpells12 : Spells cEnvC.parseReal (.int 12 : Prim Unit) [49, 50] :=
+  ⟨⟨[49, 50], by simp, by simp [Digits, isDig], Or.inl ⟨rfl, by decide⟩⟩, by decide, by decide⟩
+
+theorem wAllWs : AllWs [32] := by intro b hb; simp at hb; subst hb; decide
+
+/-- every hypothesis of `compressed_reads_member_concrete` holds of the witness -/
+example : resolveRef wP wBuf 0 wTab 2 [] .any 2 = .ok (.plain (.int 12)) := by
+  obtain ⟨info, a, b, hstm, hhead, hraw, hdec⟩ := wStm
+  exact compressed_reads_member_concrete cEnvC rfl 100 _ _ _ wBuf 0 wTab 1 [] .any 2 8 0 info a b _ wMs (.int 12)
+    (by decide) (by decide) hstm hhead hraw hdec (by decide) (by unfold WellSized; decide) wSpells12
+    (by simp [KeysDistinct]) (by decide) (by decide) wAllWs (by decide) (by decide)
+
+/-- every hypothesis of `stored_equal_concrete` holds of the witness: object 9 (stored directly) and object 2
+    (a member of object stream 8) resolve to the same value -/
+example : resolveRef wP wBuf 0 wTab 2 [] .any 9 = resolveRef wP wBuf 0 wTab 2 [] .any 2 := by
+  obtain ⟨info, a, b, hstm, hhead, hraw, hdec⟩ := wStm
+  exact stored_equal_concrete cEnvC rfl 100 _ _ _ wBuf 0 wTab 1 [] .any (.int 12)
+    (by simp [KeysDistinct]) (by decide) (by decide) (by decide)
+    9 94 94 [49, 50] [] [57] [32] [48] [32] [10] [10] [10] 9 0
+    (by decide) (by decide) wSpells12 (by decide)
+    .nil ⟨by simp, by simp [Digits, isDig], by decide⟩ ⟨by simp, by simp [Digits, isDig], by decide⟩
+    (.ws 32 [] (by decide) .nil) (by simp) (.ws 32 [] (by decide) .nil) (by simp) (by decide) (by decide)
+    (.ws 10 [] (by decide) .nil) (.ws 10 [] (by decide) .nil)
+    (by show isReg 10 = false; decide) (by intro _; simp) (by show isReg 10 = false; decide) (by decide)
+    2 8 0 info a b _ wMs
+    (by decide) (by decide) hstm hhead hraw hdec (by decide) (by unfold WellSized; decide) wSpells12 wAllWs (by decide)
+
+/-- the length resolver instantiated with the model's own resolve answers `12` for `/Length 2 0 R` in the witness
+    (object 2 is a member of object stream 8): the hypothesis `hres` of `length_direct_eq_indirect_concrete` -/
+example : ({ cEnvC with
+      resolveLen := modelLenResolver cEnvC 100 (fun _ raw => .ok raw) (fun _ => .err) (fun _ => []) wBuf 0 wTab 2 [] }
+      : Env Unit).resolveLen 2 0 = .ok 12 := by
+  obtain ⟨info, a, b, hstm, hhead, hraw, hdec⟩ := wStm
+  exact model_resolver_answers_compressed_length cEnvC rfl 100 _ _ _ wBuf 0 wTab 1 [] 2 0 8 0 info a b _ wMs 12
+    (by decide) (by decide) hstm hhead hraw hdec (by decide) (by unfold WellSized; decide) wSpells12 wAllWs (by decide)
+
+end Witness
 
 end C11
